@@ -76,6 +76,18 @@ fn echo(name: &str, params: &jsonrpsee_types::Params<'_>, log: &Log) -> Result<V
 	Ok(json!({"echo": v}))
 }
 
+#[derive(Clone)]
+pub struct Live {
+	n: usize,
+	passes: Arc<std::sync::atomic::AtomicUsize>,
+}
+impl serde::Serialize for Live {
+	fn serialize<S: serde::Serializer>(&self, ser: S) -> Result<S::Ok, S::Error> {
+		let pass = self.passes.fetch_add(1, std::sync::atomic::Ordering::SeqCst);
+		ser.serialize_str(&"x".repeat(self.n + 64 * pass))
+	}
+}
+
 /// The module every server-side G3 check registers.
 pub fn module(log: Log) -> RpcModule<Log> {
 	let mut m = RpcModule::new(log);
@@ -100,6 +112,14 @@ pub fn module(log: Log) -> RpcModule<Log> {
 		let (n, kind): (usize, String) = p.parse()?;
 		log.lock().push(json!({"h": "big", "n": n}));
 		Ok(Value::String(crate::limits_payload(n, &kind)))
+	})
+	.unwrap();
+	// a result that is a live view of shared state which grows while it is being written: the first serialisation pass yields
+	// `n` bytes of string payload, every further pass 64 more (C08: what is checked must be what is sent)
+	m.register_method("live", |p, log, _| -> Result<Live, ErrorObjectOwned> {
+		let (n, _kind): (usize, String) = p.parse()?;
+		log.lock().push(json!({"h": "live", "n": n}));
+		Ok(Live { n, passes: Arc::new(std::sync::atomic::AtomicUsize::new(0)) })
 	})
 	.unwrap();
 	m.register_method("fail_with_data", |p, log, _| -> Result<Value, ErrorObjectOwned> {
